@@ -93,6 +93,23 @@ def instruction_points(module, only=None):
     return out
 
 
+def rmw_points(module, only=None):
+    """[(qualname, offset)] of the STORE that completes an augmented assignment (`self.x += 1`): parking a thread
+    there leaves it between the read and the write of a read-modify-write."""
+    import dis
+    out = []
+    for co in code_objects(module):
+        if only and not any(co.co_qualname.endswith(o) for o in only):
+            continue
+        ins = list(dis.get_instructions(co))
+        for i, x in enumerate(ins):
+            if x.opname in ("STORE_ATTR", "STORE_FAST", "STORE_SUBSCR", "STORE_GLOBAL", "STORE_DEREF"):
+                window = ins[max(0, i - 4):i]
+                if any(w.opname == "BINARY_OP" and "=" in (w.argrepr or "") for w in window):
+                    out.append((co.co_qualname, x.offset))
+    return out
+
+
 class Injector(object):
     def __init__(self, modules):
         self.modules = modules
